@@ -349,6 +349,42 @@ def replay(cex):
     Jd = J if 'twopl' in flags else spec.Inst(J.na, J.ns, J.np, J.nl, J.prefs, J.plec, None, J.plq, J.puq, J.llq, J.lt, J.luq)
     notes = []
     bad = False
+    if d.get('seq'):
+        # a finding about figures taken from solver variables instead of the matching is about the code, not about
+        # one instance: look for a concrete instance on which real CBC leaves such a variable away from the
+        # recomputed value (pool of shapes x seeded quotas/targets)
+        import random as _r
+        rng = _r.Random(11)
+        pool = [lpchecks.shape_from(d['shape'])] + [s for s in shapes.corner_shapes() if s.ns <= 3] + \
+               [shapes.random_shape(rng, 3, 3, 2, 3, False) for _ in range(10)]
+        seqs = [[(c_, list(a_)) for c_, a_ in d['seq']], [('lmb', [])], [('maxsize', []), ('lmb', [])], [('lmb', []), ('mincost', [])]]
+        for I0 in pool:
+            for trial in range(4):
+                puq = [rng.choice([1, 2, 3]) for _ in range(I0.np)]
+                if I0.na == 3:
+                    lt = [rng.choice([0, 1, 2, 3]) for _ in range(I0.nl)]
+                    luq = [max(t, rng.choice([1, 2, 3])) for t in lt]
+                    I1 = I0.with_numerics([0] * I0.np, puq, [0] * I0.nl, lt, luq)
+                else:
+                    I1 = I0.with_numerics([0] * I0.np, puq, [0] * I0.np, list(puq), list(puq))
+                fl = set(f_ for f_ in flags if f_ != 'twopl' or I0.lprefs is not None)
+                I1d = I1 if 'twopl' in fl else spec.Inst(I1.na, I1.ns, I1.np, I1.nl, I1.prefs, I1.plec, None, I1.plq, I1.puq, I1.llq, I1.lt, I1.luq)
+                for sq in seqs:
+                    if not lpchecks.admissible(I1, sq):
+                        continue
+                    out = rp.real_solve(I1, fl, e2.opts_to_argv(sq), getter='get_results_long')
+                    if out['exc']:
+                        return True, 'instance:\n%s\nargv %s: raised %s' % (spec.inst_to_text(I1, trailer=False), e2.opts_to_argv(sq), out['exc'])
+                    pr = out['parsed']
+                    if pr['matching'] is None:
+                        continue
+                    xm = spec.x_from_matching_line(I1d, pr['matching'])
+                    want = {'size': spec.size(I1d, xm, P), 'cost': tuple(spec.cost(I1d, xm, P)), 'degree': spec.degree(I1d, xm, P),
+                            'profile': spec.profile(I1d, xm, P), 'max_lec_abs_diff': spec.maxdev(I1d, xm, P), 'sum_lec_abs_diff': spec.sumdev(I1d, xm, P)}
+                    wrong = {k: (pr[k], v) for k, v in want.items() if pr[k] != v}
+                    if wrong:
+                        return True, 'instance:\n%s\nargv %s %s: matching %s, printed vs recomputed: %s' % (
+                            spec.inst_to_text(I1, trailer=False), sorted(fl), e2.opts_to_argv(sq), pr['matching'], wrong)
     if 'stab' in flags:
         # post-solve state with the counterexample's values forced (no feasibility needed for printing)
         import os, shutil, tempfile
